@@ -143,6 +143,7 @@ func (r relationSlice) toRelationsSlowPath(world *World, mask *bitMask, ids []ID
 		return append(out, relationID{target: rel.target, component: id})
 	}
 	// Slower with loop for more than one relation
+	start := len(out)
 	for _, rel := range r {
 		id := rel.id(ids, world)
 		world.storage.checkRelationTarget(rel.targetEntity())
@@ -150,15 +151,30 @@ func (r relationSlice) toRelationsSlowPath(world *World, mask *bitMask, ids []ID
 		if !mask.Get(id.id) {
 			panic(fmt.Sprintf("requested relation component with ID %d was not specified in the filter or map", id.id))
 		}
+		checkDuplicateRelation(out[start:], id)
 		out = append(out, relationID{target: rel.target, component: id})
 	}
 	return out
 }
 
+// checkDuplicateRelation panics if there is already a relation target for the given component.
+// A duplicate would hide a missing target of another relation component
+// from the checks for fully specified relation targets.
+func checkDuplicateRelation(relations []relationID, id ID) {
+	for i := range relations {
+		if relations[i].component == id {
+			panic(fmt.Sprintf("duplicate relation target for component with ID %d", id.id))
+		}
+	}
+}
+
 // ToRelationIDsForUnsafe converts a slice of Relation items from the unsafe API to relationIDs.
 func (r relationSlice) ToRelationIDsForUnsafe(world *World, out []relationID) []relationID {
+	start := len(out)
 	for _, rel := range r {
-		out = append(out, rel.relationIDForUnsafe(world))
+		id := rel.relationIDForUnsafe(world)
+		checkDuplicateRelation(out[start:], id.component)
+		out = append(out, id)
 	}
 	return out
 }
